@@ -541,8 +541,6 @@ class Cell(Numbered_MCNP_Object):
         :param surfaces: a surfaces collection of the surfaces in the problem
         :type surfaces: Surfaces
         """
-        self._surfaces = Surfaces()
-        self._complements = Cells()
         if self.old_mat_number is not None:
             if self.old_mat_number > 0:
                 try:
@@ -553,6 +551,9 @@ class Cell(Numbered_MCNP_Object):
                     )
             else:
                 self._material = None
+        # only start new containers once nothing can fail before they are refilled
+        self._surfaces = Surfaces()
+        self._complements = Cells()
         self._geometry.update_pointers(cells, surfaces, self)
 
     def remove_duplicate_surfaces(self, deleting_dict):
